@@ -39,12 +39,12 @@ func (g *fgen) preciseLocs(fc *funcContract, env *cenv) (pi *preciseInfo) {
 		}
 		ok := g.tryPrecise(fc, env, item, pi)
 		if !ok {
-			for k := range keys {
+			for _, k := range sortedKeys(keys) {
 				pi.coarse[k] = true
 			}
 		}
 	}
-	for k := range pi.coarse {
+	for _, k := range sortedKeys(pi.coarse) {
 		delete(pi.bases, k)
 	}
 	return pi
@@ -159,7 +159,7 @@ func (g *fgen) tryPrecise(fc *funcContract, env *cenv, item string, pi *preciseI
 // ms is the coarse declared mod-set; returns the keys handled here.
 func (g *fgen) applyPrecise(pi *preciseInfo, ms *modset, st *state) {
 	var keys []string
-	for k := range pi.bases {
+	for _, k := range sortedKeys(pi.bases) {
 		if _, ok := ms.any[k]; ok {
 			keys = append(keys, k)
 		}
@@ -191,7 +191,7 @@ func (g *fgen) frameObligations(st *state, pos token.Pos, site string) {
 		return
 	}
 	var keys []string
-	for k := range g.precise.bases {
+	for _, k := range sortedKeys(g.precise.bases) {
 		keys = append(keys, k)
 	}
 	sort.Strings(keys)
